@@ -77,6 +77,8 @@ enum Op {
     /// index into the checkpoints taken so far: `sel % n`, 0 = oldest, LAST = newest
     Restore(usize),
     Advance(u64),
+    /// `cleanup_expired()`: physically drops expired entries; nothing observable may change
+    Cleanup,
 }
 
 #[derive(Clone, Debug)]
@@ -294,6 +296,11 @@ fn gen_hist(s: &mut Src, ctx: &mut Ctx, fl: &mut GenFlags) -> Case {
     let mut g = GenState::default();
     let mut ops: Vec<Op> = (0..n).map(|_| gen_op(s, arb, f2, true, &mut g, fl)).collect();
     let mut default_ttl = default_ttl;
+    // one history in three also calls cleanup_expired() somewhere (drawn after the steps: earlier encodings keep their meaning)
+    if s.chance(1, 3) {
+        let pos = s.below(ops.len() + 1);
+        ops.insert(pos, Op::Cleanup);
+    }
     // Wide scale, drawn after everything else (byte-encoded cases written before this existed decode as before): one
     // case in four multiplies every TTL and every clock advance by K (a second, 1001 ms, a minute, an hour, a prime
     // near 10^6) and then moves each advance by -1, 0 or +1 ms, so that checkpoints and restores fall on, just before
@@ -331,6 +338,10 @@ fn gen_crash(s: &mut Src, ctx: &mut Ctx, fl: &mut GenFlags) -> Case {
     let n = s.below(9).max(s.below(9));
     let mut g = GenState::default();
     let mut ops: Vec<Op> = (0..n).map(|_| gen_op(s, arb, f2, false, &mut g, fl)).collect();
+    if s.chance(1, 3) {
+        let pos = s.below(ops.len() + 1);
+        ops.insert(pos, Op::Cleanup);
+    }
     ops.push(Op::Checkpoint { bump: false }); // B, the interrupted one
     let mut case = Case { keys, max_cp, default_ttl, arb_floats: arb, ops };
     finish_gen(&mut case, fl, ctx);
@@ -376,6 +387,7 @@ fn fmt_case(c: &Case) -> String {
             Op::Restore(LAST) => "restore(newest)".to_string(),
             Op::Restore(i) => format!("restore(#{} mod n, 0=oldest)", i),
             Op::Advance(d) => format!("advance({}ms)", d),
+            Op::Cleanup => "cleanup_expired".to_string(),
         })
         .collect();
     format!(
@@ -706,6 +718,19 @@ impl Exec {
                 self.checkpoint(i, ctx)?;
             }
             Op::Restore(sel) => self.restore(i, *sel, ctx)?,
+            Op::Cleanup => {
+                let before = observe(&self.store, &self.keys)?;
+                let _ = self.store.cleanup_expired();
+                let after = observe(&self.store, &self.keys)?;
+                if !same_obs(&before, &after) {
+                    return Err(Verdict::fail(
+                        "cleanup-changed-observable-state",
+                        format!("step {}: cleanup_expired() changed what the store observably holds from {} to {}", i, fmt_obs(&before), fmt_obs(&after)),
+                    ));
+                }
+                self.model_check(&after, i)?;
+                ctx.label("cleanup_expired");
+            }
         }
         Ok(())
     }
